@@ -447,6 +447,9 @@ func verifyAndFillConfig(cfg *ResponseConfig, nowMS int) error {
 		// Segment numbers are 32-bit (mfhd sequence_number)
 		return fmt.Errorf("start number (snr) must be in the range 0 to %d", uint32(math.MaxUint32))
 	}
+	if cfg.StopTimeS != nil && *cfg.StopTimeS < cfg.StartTimeS {
+		return fmt.Errorf("stop time must not be before start time")
+	}
 	if cfg.PeriodsPerHour != nil && (*cfg.PeriodsPerHour < 1 || *cfg.PeriodsPerHour > 3600) {
 		return fmt.Errorf("periods per hour must be in the range 1 to 3600")
 	}
